@@ -432,3 +432,30 @@ Proof.
 Qed.
 
 End Tamper.
+
+(* ---------- "zip" is taken from the PROTECTED header only ---------- *)
+(* without "zip" in the protected header the returned plaintext IS the AEAD output: whatever the shared unprotected
+   header or the per-recipient headers contain ("zip" included) cannot make the result an inflated / other value *)
+Lemma zip_only_protected O g o m :
+  perform_decrypt O g o = Ok m -> dmem (j_prot o) (s_ "zip") = false ->
+  exists e cek aad, dec_aad O o = Ok aad /\ enc_decrypt O e (j_ct o) (j_tag o) cek (j_iv o) aad = Ok m.
+Proof.
+  intros H Z. apply perform_decrypt_sound in H.
+  destruct H as [encv [e [cek [aad [msg [_ [_ [_ [_ [_ [_ [_ [A [D U]]]]]]]]]]]]]].
+  unfold unzip in U. rewrite Z in U. inversion U; subst. exists e, cek, aad. auto.
+Qed.
+
+(* the decompression step reads the protected header alone *)
+Lemma unzip_ignores_other_headers O g o1 o2 msg :
+  j_prot o1 = j_prot o2 -> unzip O g (j_prot o1) msg = unzip O g (j_prot o2) msg.
+Proof. intros ->. reflexivity. Qed.
+
+(* with "zip" in the protected header: inflate of the AEAD output, again independent of the other headers *)
+Lemma zip_protected O g o m :
+  perform_decrypt O g o = Ok m -> dmem (j_prot o) (s_ "zip") = true ->
+  exists e cek aad msg, enc_decrypt O e (j_ct o) (j_tag o) cek (j_iv o) aad = Ok msg /\ o_inflate O msg = Ok m.
+Proof.
+  intros H Z. apply perform_decrypt_sound in H.
+  destruct H as [encv [e [cek [aad [msg [_ [_ [_ [_ [_ [_ [_ [A [D U]]]]]]]]]]]]]].
+  unfold unzip in U. rewrite Z in U. inv_bind U. exists e, cek, aad, msg. auto.
+Qed.
